@@ -255,6 +255,19 @@ def run(prog: Program, chk: Check):
     hi = prog.func(PAR, "Parser.handle_import")
     D.decide(any(is_method_call(c, "parse_file") for c in calls_in(hi.node)), fkey(hi, "imports-through-parse_file"), where(hi), "imports go through parse_file", "handle_import does not go through parse_file")
 
+    # the parser's notion of "current file" is restored on every normal exit (the module/host id range rules and all
+    # error messages are keyed by it; a skipped repeat import must not leave the importer under another file's name)
+    for fn in ("Parser.parse_file", "Parser.parse_options"):
+        pf_ = prog.func(PAR, fn)
+        pgx = C.build(pf_.node)
+        sets = [n for n in pgx.nodes if n.kind == "stmt" and isinstance(n.ast, ast.Assign) and any(path_of(t) == "self.current_file" for t in n.ast.targets)]
+        saved = [path_of(n.ast.targets[0]) for n in pgx.nodes if n.kind == "stmt" and isinstance(n.ast, ast.Assign) and norm(n.ast.value) == "self.current_file"]
+        changes = [n for n in sets if norm(n.ast.value) not in saved]
+        restores = [n for n in sets if norm(n.ast.value) in saved]
+        esc = flow.must_follow(pgx, changes, restores, exits=("exit",)) if changes else []
+        D.decide(bool(changes) and bool(restores) and not esc, fkey(pf_, "current_file-restored"), where(pf_), "self.current_file is restored on every normal exit",
+                 f"{fn} can return normally with self.current_file still naming the file it was asked to parse (e.g. on the already-included skip path): later sections of the importing file are judged under the wrong file name")
+
     # ---- G one registry per parse ------------------------------------------------------------------------------------------------
     G = chk.rule("C12-G", "all registries are instance attributes reset by clear(); parse() clears on failure", 3,
                  "state leaking between parses invents conflicts")
